@@ -80,6 +80,26 @@ type Cfg struct {
 
 func pick(r *rand.Rand, ss []string) string { return ss[r.Intn(len(ss))] }
 
+// captureLit spells a capture limit: mostly 1..3, sometimes zero-padded decimals (still decimal), 0 (no limit)
+// or a two-digit limit.
+func captureLit(r *rand.Rand) string {
+	if r.Intn(12) == 0 {
+		return pick(r, []string{"08", "09", "007", "010", "0", "00", "12", "02"})
+	}
+	return string(rune('1' + r.Intn(3)))
+}
+
+// bindName draws a bind name: the tiny pool, rarely a name that looks like one of the API's own keywords.
+func bindName(r *rand.Rand) string {
+	switch r.Intn(60) {
+	case 0:
+		return "route"
+	case 1:
+		return pick(r, []string{"capture", "withOptional", "Route"})
+	}
+	return pick(r, Binds)
+}
+
 // boundaryLens are lengths at which buffers, small-string paths or size classes typically change.
 var boundaryLens = []int{15, 16, 17, 31, 32, 33, 63, 64, 65, 127, 128, 129, 255, 256, 257, 1023, 1024, 4096}
 
@@ -111,7 +131,7 @@ func GenRegexElems(r *rand.Rand) []rmodel.Elem {
 			lastLit = true
 			continue
 		case x < 5:
-			es = append(es, rmodel.Elem{Bind: pick(r, Binds)})
+			es = append(es, rmodel.Elem{Bind: bindName(r)})
 		default:
 			np := 1
 			if r.Intn(5) == 0 {
@@ -119,7 +139,7 @@ func GenRegexElems(r *rand.Rand) []rmodel.Elem {
 			}
 			var ps []rmodel.Param
 			for k := 0; k < np; k++ {
-				ps = append(ps, rmodel.Param{Name: pick(r, Binds), Value: Catalogue[r.Intn(len(Catalogue))].Expr, IsRegex: true, Blanks: 1, Lead: 1})
+				ps = append(ps, rmodel.Param{Name: bindName(r), Value: Catalogue[r.Intn(len(Catalogue))].Expr, IsRegex: true, Blanks: 1, Lead: 1})
 			}
 			es = append(es, rmodel.Elem{Params: ps})
 		}
@@ -143,15 +163,15 @@ func GenSeg(r *rand.Rand, c Cfg) rmodel.Segment {
 	case x < 7:
 		return rmodel.Segment{Elems: []rmodel.Elem{{Lit: pick(r, Idents)}}}
 	case x < 10:
-		return rmodel.Segment{Elems: []rmodel.Elem{{Bind: pick(r, Binds)}}}
+		return rmodel.Segment{Elems: []rmodel.Elem{{Bind: bindName(r)}}}
 	case x < 15 && !c.NoRegex:
 		return rmodel.Segment{Elems: GenRegexElems(r)}
 	case x < 17:
-		return rmodel.Segment{Elems: []rmodel.Elem{{Params: []rmodel.Param{{Name: pick(r, Binds), Value: "**", Blanks: 1}}}}}
+		return rmodel.Segment{Elems: []rmodel.Elem{{Params: []rmodel.Param{{Name: bindName(r), Value: "**", Blanks: 1}}}}}
 	case x < 19:
 		return rmodel.Segment{Elems: []rmodel.Elem{{Params: []rmodel.Param{
-			{Name: pick(r, Binds), Value: "**", Blanks: 1},
-			{Name: "capture", Value: string(rune('1' + r.Intn(3))), Blanks: 1, Lead: 1}}}}}
+			{Name: bindName(r), Value: "**", Blanks: 1},
+			{Name: "capture", Value: captureLit(r), Blanks: 1, Lead: 1}}}}}
 	default:
 		if r.Intn(2) == 0 {
 			return rmodel.Segment{Elems: []rmodel.Elem{{Bind: "**"}}}
